@@ -191,6 +191,51 @@ func graphCase(rng *rand.Rand, shape string) *input {
 		in.Files["conf/x.cfg"] = titled("confx", "")
 		in.Files["lib/x.cfg"] = titled("libx", "")
 		in.Files["x.cfg"] = titled("rootx", "")
+	case "wide":
+		// many SEQUENTIAL includes at one level: the limit is on nesting, not on the number
+		n := []int{10, 12, 25}[rng.Intn(3)]
+		var body []string
+		for i := 0; i < n; i++ {
+			if rng.Intn(2) == 0 {
+				body = append(body, "include leaf.cfg")
+			} else {
+				name := fmt.Sprintf("l%d.cfg", i)
+				in.Files[name] = titled(name, "")
+				body = append(body, "include "+name)
+			}
+			if rng.Intn(3) == 0 {
+				body = append(body, "")
+			}
+		}
+		in.Files["leaf.cfg"] = titled("leaf", "")
+		in.Files["m.cfg"] = titled("m", body...)
+		in.Fault = fmt.Sprintf("wide-%d", n)
+	case "comb":
+		// depth 3-4, several sequential includes at every level (a comb / a bushy
+		// diamond); at most ~120 files opened in one parse (the parser does not
+		// close them)
+		d := 3 + rng.Intn(2)
+		per := 4
+		if d == 4 {
+			per = 3
+		}
+		for lvl := 1; lvl <= d; lvl++ {
+			name := fmt.Sprintf("k%d.cfg", lvl)
+			if lvl == 1 {
+				name = "m.cfg"
+			}
+			var body []string
+			for j := 0; j < per; j++ {
+				body = append(body, "")
+				if lvl < d {
+					body = append(body, fmt.Sprintf("include k%d.cfg", lvl+1))
+				} else {
+					body = append(body, "include leaf.cfg")
+				}
+			}
+			in.Files[name] = titled(name, body...)
+		}
+		in.Files["leaf.cfg"] = titled("leaf", "")
 	case "shadow-sibling-listed":
 		// the including file's own directory is ALSO one of the -I directories,
 		// listed after another one that has the name: it is still searched first
@@ -314,7 +359,7 @@ func graphCase(rng *rand.Rand, shape string) *input {
 	return in
 }
 
-var graphShapes = []string{"shadow-sibling-listed", "nonl-title", "nonl-end", "nonl-nested", "chain", "chain", "chain", "diamond", "self", "mutual", "cycle3", "directory", "directory-nested", "missing",
+var graphShapes = []string{"wide", "comb", "shadow-sibling-listed", "nonl-title", "nonl-end", "nonl-nested", "chain", "chain", "chain", "diamond", "self", "mutual", "cycle3", "directory", "directory-nested", "missing",
 	"only-I", "shadow-sibling", "shadow-order", "sibling-of-includer", "dotdot", "no-final-newline", "empty-files", "random", "random", "random", "random"}
 
 // escapesRoot says whether some include name of the file set could climb
